@@ -10,7 +10,7 @@ GETTERS = ['get_results', 'get_results_short', 'get_results_long', 'get_debug']
 
 
 def cases(rng, tier):
-    for t in range(30 if tier == 'quick' else 1200):
+    for t in range(50 if tier == 'quick' else 1200):
         c = LP.rand_case(rng, ncrit=(0, 2), zero=(t % 2 == 0))
         c['bf'] = rng.random() < 0.3
         if c['bf']: c['crits'] = []; c['stab'] = False
